@@ -81,9 +81,9 @@ ASSUMPTIONS = [
 # While a flag is True the generator keeps the trigger of that defect to a
 # small share so that the rest of the domain is still searched; the avoided
 # cases are counted in the class named next to the flag.
-KNOWN_EAGLE_INFEASIBLE_DUMP = True   # class: eagle 'infeasible_cfg_avoided'
-KNOWN_SHUFFLED_FACTORY = True        # class: service 'shuffled_default_avoided'
-KNOWN_CMAES_BUFFER = True            # class: cmaes 'aligned_batches'
+KNOWN_EAGLE_INFEASIBLE_DUMP = False   # class: eagle 'infeasible_cfg_avoided'
+KNOWN_SHUFFLED_FACTORY = False        # class: service 'shuffled_default_avoided'
+KNOWN_CMAES_BUFFER = False            # class: cmaes 'aligned_batches'
 
 DET_KINDS = ('DOUBLE', 'INTEGER', 'DISCRETE', 'CATEGORICAL', 'BOOL')
 
